@@ -43,4 +43,24 @@ theorem C07_from_nfa_valid (n : AV.NFA σ α) (hv : n.validate = .ok ()) :
   rw [DFA.validate_eq_ok]
   exact expand_wf _ _ (subset_expandHyp n _) (fun u _ => subsetSucc_keys_sub wf u)
 
+/-! ## B. `NFA.from_dfa` — a DFA viewed as an NFA -/
+
+/-- **`NFA.from_dfa`: the result is a valid NFA** (in particular the initial state has a
+transition row, which `NFA.validate` demands and DFA validity provides). -/
+theorem C07_from_dfa_valid (d : AV.DFA σ α) (hv : d.validate = .ok ()) :
+    (NFA.ofDFA d).validate = .ok () := by
+  rw [NFA.validate_eq_ok]
+  exact ofDFA_wf ((DFA.validate_eq_ok d).mp hv)
+
+/-- **`NFA.from_dfa`: same language**, for complete and partial DFAs alike (this half needs
+no validity hypothesis at all: the NFA has no ε-moves and its set of current states is the
+singleton of the DFA's state, or empty once the DFA run has stopped). -/
+theorem C07_from_dfa_lang (d : AV.DFA σ α) : ∀ w, (NFA.ofDFA d).accepts w = d.accepts w :=
+  ofDFA_accepts d
+
+/-- The set of current states of the embedded DFA after `w`. -/
+theorem C07_from_dfa_run (d : AV.DFA σ α) (w : List α) (p : σ) :
+    p ∈ (NFA.ofDFA d).runFrom ((NFA.ofDFA d).closure d.init) w ↔ d.run (some d.init) w = some p := by
+  rw [ofDFA_closure]; exact ofDFA_run d w (some d.init) p
+
 end AV.Props.C07
